@@ -78,6 +78,8 @@ pub fn base_project(n: usize, rich: bool) -> ItemProject {
         } else {
             items.push(shared);
         }
+        // two event names with one listener identifier (`tick:done` / `tick-done`), in alternating files
+        items.push(format!("pub fn tick_{i}(app: &AppHandle, n: i32) {{ app.emit(\"{name}\", n).unwrap(); }}\n", i = i, name = if i % 2 == 0 { "tick:done" } else { "tick-done" }));
         files.push((path, items));
     }
     ItemProject { files }
@@ -330,11 +332,11 @@ fn cli_case(n: usize, zod: bool, seeds: u64, mapped: bool) -> (Vec<Violation>, u
     let mut p = base_project(n, true).render();
     // with type mappings: several keys, two of them module-qualified spellings of one bare name
     let mappings: Vec<(String, String)> = if mapped {
-        p.files[0].1.push_str("\n#[derive(Serialize, Deserialize)]\npub struct Span { pub took: Duration, pub id: Uuid, pub at: Option<Stamp> }\n#[tauri::command]\npub fn span_of(id: Uuid) -> Span { todo!() }\n");
+        p.files[0].1.push_str("\n#[derive(Serialize, Deserialize)]\npub struct Span { pub took: Duration, pub id: Uuid, pub at: Option<Stamp>, pub seen: DateTime<Utc>, pub seen_local: Vec<DateTime<Local>> }\n#[tauri::command]\npub fn span_of(id: Uuid) -> Span { todo!() }\n");
         // ... and two files that define a type of the same name with different fields
         p.files.push(("src/inventory/models.rs".into(), "use serde::{Deserialize, Serialize};\n#[derive(Serialize, Deserialize)]\npub struct Twin { pub sku: String, pub shelf: u32 }\n#[tauri::command]\npub fn stock() -> Vec<Twin> { vec![] }\n".into()));
         p.files.push(("src/orders/models.rs".into(), "use serde::{Deserialize, Serialize};\n#[derive(Serialize, Deserialize)]\npub struct Twin { pub product_id: u64, pub unit_price: f64 }\n#[tauri::command]\npub fn order_lines() -> Vec<Twin> { vec![] }\n".into()));
-        vec![("chrono::Duration".into(), "number".into()), ("std::time::Duration".into(), "{ secs: number; nanos: number }".into()), ("Uuid".into(), "string".into()), ("Stamp".into(), "number".into())]
+        vec![("chrono::Duration".into(), "number".into()), ("std::time::Duration".into(), "{ secs: number; nanos: number }".into()), ("Uuid".into(), "string".into()), ("Stamp".into(), "number".into()), ("DateTime".into(), "Date".into()), ("DateTime<Utc>".into(), "string".into()), ("DateTime<Local>".into(), "number".into()), ("Date".into(), "boolean".into())]
     } else {
         vec![]
     };
